@@ -342,7 +342,8 @@ def check_dbg_eval(cid, cfg, *xs):
             by_line[ln] = st[1][0]
     checked = 0
     n = 0
-    while not s.cpu.halted and n < 120:
+    max_steps = max(120, s.cell.budget // 10)
+    while not s.cpu.halted and n < max_steps:
         if s.cpu.pc >= len(s.module.code):
             break
         st = s.cur_stmt()
@@ -417,7 +418,7 @@ def check_dbg_eval(cid, cfg, *xs):
         if not s.cmd('step'):
             return _why(11)
         n += 1
-    if n >= 120:
+    if n >= max_steps:
         raise BudgetExceeded('step budget')
     # error paths, also after the program has finished
     for bad in ('nosuchvar%', 'arr&(99)', 'p.nofield', '1 +'):
